@@ -329,6 +329,18 @@ def scalar_names(sc) -> list[str]:
     return list(sc["flow"].get("scalars", []))
 
 
+def scalar_offset(name: str) -> float:
+    return 1.0 + {"temp": 0.0, "salt": 0.5}.get(name, 0.25)
+
+
+def scalar_ident(sc, f: int) -> np.ndarray:
+    """integer that identifies (frame, level, cell) [N, jmax0, imax0]"""
+    jm, im = dims(sc)
+    N = vert(sc)["N"]
+    K, J, I = np.mgrid[0:N, 0:jm, 0:im]
+    return ((f * N + K) * jm + J) * im + I
+
+
 def truth_scalar(sc, name: str, f: int) -> np.ndarray:
     """scalar field of frame f at rho points [N, jmax0, imax0] as float64 of float32.
 
@@ -336,7 +348,7 @@ def truth_scalar(sc, name: str, f: int) -> np.ndarray:
     jm, im = dims(sc)
     N = vert(sc)["N"]
     K, J, I = np.mgrid[0:N, 0:jm, 0:im]
-    if name == "w":
+    if name == "w":  # noqa: SIM114
         wf = sc["flow"].get("w", {"w0": 0.0})
         amp = wf.get("amp")
         a = float(amp[f]) if amp else 1.0
